@@ -14,7 +14,7 @@ VARIABLES reg,   \* the machine's register file
           prev,  \* the register file before the last step (the arguments of the last call)
           l      \* next trace line to consume
 vars == <<reg, prev, l>>
-NREG == 8
+NREG == 20
 Rec == ndJsonDeserialize(IOEnv.TRACE)
 Nil == [t |-> "Nil", c |-> <<>>]
 
